@@ -189,11 +189,20 @@ def install_models(reg):
 
 
 # --------------------------------------------------------------- contracts --
+def local_refs(lc, kinds):
+    out = []
+    for name, val in lc.st.frame.env.items():
+        if isinstance(val, VRef) and lc.st.obj(val.ref).kind in kinds and not any(val.ref == o.ref for o in out):
+            out.append(val)
+    return out
+
+
 def ser_loop_inv(lc):
     """for item in fields(value): result == {_type: class name} + the encoded processed prefix."""
     v = lc.entry.lookup("value").t
     b = lc.entry.lookup("include_binary").t
-    res = lc.ex.to_pv(lc.st, lc["result"])
+    acc = local_refs(lc, ("dict", "pvkv"))          # the accumulator: the one mapping this activation built (whatever its name)
+    res = lc.ex.to_pv(lc.st, acc[0]) if len(acc) == 1 else None
     if res is None:
         return F
     return res == V.Dict(KV.kcons(sv("_type"), V.Str(V.cls(v)), sp.SERKV(lc.extra["done"], b)))
@@ -306,12 +315,25 @@ def cov_defs(h):
     return [sp.defn(sp.COV(h)), sp.defn(sp.COV(H.oarg(h))), sp.defn(sp.COV(H.uarg(h)))]
 
 
+def hint_argument(ex, st, expr):
+    """The hint the element expression passes to the recursive decoder call (whatever the local is called)."""
+    calls = [x for x in ast.walk(expr) if isinstance(x, ast.Call) and len(x.args) == 2]
+    if len(calls) != 1:
+        return None
+    r = ex.ev(calls[0].args[1], st.fork())
+    return ex.to_ph(st, r[0][1]) if len(r) == 1 else None
+
+
 def dv_comp_specs(ex, st, n, kind, what):
     if what == "list":
-        it = ex.to_ph(st, st.lookup("item_type"))
+        it = hint_argument(ex, st, n.elt)
+        if it is None:
+            return None
         return {"elem": lambda e: sp.DESER(e, it), "map": lambda l: sp.DESERL(l, it)}
     if what == "kv":
-        vt = ex.to_ph(st, st.lookup("value_type"))
+        vt = hint_argument(ex, st, n.value)
+        if vt is None:
+            return None
         return {"elem": lambda e: sp.DESER(e, vt), "key": lambda k: k, "map": lambda kv: sp.DESERKV(kv, vt)}
     return None
 
@@ -327,14 +349,13 @@ def kw_invariant(seen, has, val, j, cn):
 
 
 def dd_loop_inv(lc):
-    kw = lc["kwargs"]
-    o = lc.st.obj(kw.ref)
-    if o.kind != "pvmap":
+    kws = local_refs(lc, ("pvmap",))                 # the keyword dictionary filled by the loop (whatever its name)
+    if len(kws) != 1:
         return F
-    has, val = o.data
+    has, val = lc.st.obj(kws[0].ref).data
     data = lc["data"]
-    cn = cls_name(lc["cls"])
-    if not isinstance(data, PV) or cn is None:
+    cn = lc.extra["cls"]
+    if not isinstance(data, PV):
         return F
     lc.st.ghost["kw_loop"] = (lc.extra["seen"], has, val, V.ents(data.t), cn)
     return kw_invariant(lc.extra["seen"], has, val, V.ents(data.t), cn)
@@ -737,11 +758,28 @@ def known_findings(kf, violations, repo, tier):
     return out
 
 
-TRUSTED = ["contracts/c05spec.norm (definitional rewriting of the spec functions)"]
-ASSUMED_MODELS = ["dataclasses.is_dataclass / fields (instance: declared fields in order; class: field names)",
+TRUSTED = ["contracts/c05spec.norm (definitional rewriting of the spec functions; the solver sees quantifier-free formulas)",
+           "contracts/c05exec.SerExecutor (pack-local rules: element-wise comprehensions, prefix induction over dataclass fields, "
+           "processed-set induction over a set of field names, insertion-ordered dict stores)",
+           "json.dumps / json.loads are inverse on JSON values (None, bool, int, finite float, str, list, object with str keys)"]
+ASSUMED_MODELS = ["dataclasses.is_dataclass / fields (instance: declared fields in order; class: field names); @dataclass __init__ from keywords",
                   "base64.b64encode/b64decode and str.encode/bytes.decode('utf-8') are inverse pairs on base64 text",
-                  "io.BytesIO tell/seek/read (ghost position; read() from position 0 returns the whole payload)"]
+                  "io.BytesIO tell/seek/read (ghost position; read() from position 0 returns the whole payload)",
+                  "typing.get_origin / get_args / get_type_hints on the hint shapes of c05spec.H (Python < 3.14: `X | None` has origin types.UnionType)",
+                  f"{SER_PY}::_get_type_registry (reflective; content cross-checked natively against the AST-derived registry on every run)",
+                  "xlrd.sheet.Cell: ctype in 0..6 and the value kind per ctype; xlrd.xldate_as_tuple returns six ints or raises",
+                  "openpyxl reader cell values: None, bool, int, float, str, datetime, date, time, timedelta",
+                  "xml Element.get(name, default) returns a str or the default (ODS kind flow)",
+                  "extraction results' iterate_units() yields a finite sequence of dataclass instances"]
+BOUNDED = [{"what": "from_json(json.loads(json.dumps(to_json(x)))) raises nothing (the decoder contracts are partial-correctness: 'returns DESER on normal "
+                    "return'; exceptions on malformed encodings are allowed and not characterised)",
+            "bound": "BOUNDED native replay: 5 type-directed variants of each of the 118 registered dataclasses (580 instances, strings from the marker "
+                     "vocabulary) + results and units of 40 fixture documents (replay/C05.py --scope)"}]
 ASSUMPTIONS = ["PY-FLOAT-REAL: floats in V are finite reals (NaN/inf not modelled)",
-               "mappings in V have string keys (registry obligation: every Dict hint has str keys); str(key) == key",
+               "mappings in V have string keys (registry obligation: every Dict hint has str keys); str(key) == key; keys are unique",
                "a set is encoded in its iteration order, which is fixed within a process (PY-HASHSEED)",
-               "class objects are not values of V (isinstance(value, type) is False)"]
+               "class objects are not values of V (isinstance(value, type) is False)",
+               "dataclass instances are as their constructor leaves them (__post_init__ normalisations are idempotent: registry obligation, syntactic)",
+               "instances of registered dataclasses hold, in each field, a value inhabiting the declared hint (generously: None anywhere, any scalar under a "
+               "primitive hint, subclasses under a class hint, tuples/sets in list slots) -- this is the quantifier of the property",
+               "EXC-ANY for library calls inside the decoder; recorded exclusion F6 (has_marker_key) via known_findings.json only"]
